@@ -643,11 +643,28 @@ func (s *State) convert(w *Worker, x Value, from, to types.Type) Value {
 			b := strBytes(x)
 			if eb, ok := sl.Elem().Underlying().(*types.Basic); ok && eb.Kind() == types.Int32 {
 				str, ok := x.(string)
+				var slots []Value
 				if !ok {
-					s.unsupported("[]rune(symbolic string)")
+					// symbolic bytes: ASCII only (a byte >= 0x80 is outside what the engine converts)
+					for _, bv := range b {
+						switch c := bv.(type) {
+						case uint64:
+							if c >= 0x80 {
+								s.unsupported("[]rune(symbolic string) with non-ASCII bytes")
+							}
+							slots = append(slots, c)
+						case *Term:
+							if !s.branch(w, mkCmp(OUlt, c, mkBV(0x80, 8))) {
+								s.unsupported("[]rune(symbolic string) with non-ASCII bytes")
+							}
+							slots = append(slots, mkZExt(c, 32))
+						}
+					}
+					id := s.allocMem(slots)
+					return Slice{ID: id, Len: int32(len(slots)), Cap: int32(len(slots))}
 				}
 				rs := []rune(str)
-				slots := make([]Value, len(rs))
+				slots = make([]Value, len(rs))
 				for i, r := range rs {
 					slots[i] = uint64(uint32(r))
 				}
@@ -670,15 +687,22 @@ func (s *State) convert(w *Worker, x Value, from, to types.Type) Value {
 		}
 		o := s.obj(v.ID)
 		if eb, ok := sl.Elem().Underlying().(*types.Basic); ok && eb.Kind() == types.Int32 {
-			rs := make([]rune, v.Len)
-			for i := range rs {
-				c, ok := o.slots[int(v.Off)+i].(uint64)
-				if !ok {
-					s.unsupported("string(symbolic []rune)")
+			var out []Value
+			for i := 0; i < int(v.Len); i++ {
+				switch c := o.slots[int(v.Off)+i].(type) {
+				case uint64:
+					for _, bb := range []byte(string(rune(int32(c)))) {
+						out = append(out, uint64(bb))
+					}
+				case *Term:
+					// symbolic rune: ASCII only
+					if !s.branch(w, mkCmp(OUlt, c, mkBV(0x80, 32))) {
+						s.unsupported("string(symbolic []rune) with non-ASCII runes")
+					}
+					out = append(out, mkExtract(c, 0, 8))
 				}
-				rs[i] = rune(int32(c))
 			}
-			return string(rs)
+			return mkStr(out)
 		}
 		return mkStr(o.slots[v.Off : v.Off+v.Len])
 	}
